@@ -664,8 +664,10 @@ class Program:
             taken = {fl["name"] for fl in a["variants"][0]["fields"]}
             for fl in a["variants"][0]["fields"]:
                 H = fl["ty"]
+                H0 = H
+                H = re.sub(r"<'\w+(?:, '\w+)*>$", "", H)          # lifetime parameters only (`Wrapping<'a>`): still a plain grouping of fields
                 h = self.adts.get(H)
-                if not h or H in role_names or "<" in H or len(h["variants"]) != 1 or h.get("kind") == "enum" or len(used.get(H, [])) != 1:
+                if not h or H in role_names or "<" in H or len(h["variants"]) != 1 or h.get("kind") == "enum" or len(used.get(H0, [])) != 1:
                     continue
                 if fl["name"] in _mir.DISSOLVE:
                     continue
